@@ -22,6 +22,8 @@ on the former witnesses. Open: DateExampleTrim (`dateTrim_witness`).
 import KinModel.Lemmas.C03Deep
 import KinModel.Lemmas.C03Normal
 import KinModel.Gen.Descriptors
+import KinModel.MarshalRefBlock
+import KinModel.Gen.C03RefWrites
 namespace KinModel.Marshal
 open KinModel.Gen
 
@@ -495,6 +497,129 @@ example :
                              ("/b", .obj [("parameters", .arr [.obj [("$ref", .str "#/components/parameters/P")]]),
                                           ("get", .obj [("schema", .obj [("$ref", .str "#/components/schemas/A")])])])])] => true
      | _ => false) = true := by decide
+
+/-! ## the Loader route: the loader keeps every `Ref` text (table C03RefWrites, regenerated from openapi3/loader.go) -/
+
+/-- the tree model's loader keeps the reference text of every node it touches … -/
+theorem resolveG_keeps_refText (ρ : String → GoV) (σ : String → (List (String × JV) → JV) × GoV) (g : GoV) :
+    (resolveG ρ σ g).refText = g.refText := by
+  cases g with
+  | wrapper ref hv value => by_cases h : (ref != "") = true <;> simp [resolveG, GoV.refText, h]
+  | struct ref asm fields => by_cases h : (ref != "") = true <;> simp [resolveG, GoV.refText, h]
+  | _ => rfl
+
+/-- … and this is the code's reference block, statement by statement: the rows of one resolver -/
+def topsOf (fn : String) : List RTop :=
+  (c03RefTops.filter (·.fn == fn)).map fun r => ⟨r.overwrite, r.retAfter, r.hasReturn, r.restore, r.litCopy⟩
+
+/-- the translator read every statement of loader.go that can change a `Ref` text -/
+theorem refwrites_no_unrecognised : ∀ w ∈ c03RefWrites, w.kind ≠ "unrecognised" := by decide
+
+/-- every such statement (assignment to a `.Ref`, assignment through a pointer) is the restore statement of the
+    block of its own target or an overwrite of the block's owner inside that block: no resolver writes the `Ref` of
+    a wrapper, of a copy, of a target (seeded classes C03-r3m3 `p.Ref = ref` / `resolved.Ref = ref`, C03-r4m2
+    `component.Ref = resolved.Ref`) -/
+theorem refwrites_all_accounted : ∀ w ∈ c03RefWrites, w.accounted = true := by decide
+
+/-- all ten resolvers have their reference block, on their own node -/
+theorem ref_blocks :
+    c03RefBlocks.map (fun b => (b.1, b.2.1)) =
+      [("resolveHeaderRef", "component"), ("resolveParameterRef", "component"), ("resolveRequestBodyRef", "component"),
+       ("resolveResponseRef", "component"), ("resolveSchemaRef", "component"), ("resolveSecuritySchemeRef", "component"),
+       ("resolveExampleRef", "component"), ("resolveCallbackRef", "component"), ("resolveLinkRef", "component"),
+       ("resolvePathItemRef", "pathItem")] := by decide
+
+/-- the statement rows of every block are complete and in source order -/
+theorem ref_tops_complete :
+    ∀ b ∈ c03RefBlocks, (c03RefTops.filter (·.fn == b.1)).map (·.idx) = List.range b.2.2.2 ∧
+      (c03RefTops.filter (·.fn == b.1)).all (·.owner == b.2.1) = true := by decide
+
+/-- every block passes the check: no return between an overwrite and the restore, nothing overwritten at the end -/
+theorem ref_blocks_ok : ∀ b ∈ c03RefBlocks, okFrom false (topsOf b.1) = true := by decide
+
+/-- the nine wrapper blocks neither overwrite nor restore nor copy -/
+theorem wrapper_blocks_inert :
+    ∀ b ∈ c03RefBlocks, b.1 ≠ "resolvePathItemRef" → (topsOf b.1).all RTop.inert = true := by decide
+
+/-- The reference block of every resolver of this repository leaves the node's `Ref` as it was written in the
+    document, for every control flow through the block (any branch, any early return, any `Ref` carried by the
+    copied target `p` / `resolved`), given that the value registered under the block's key carries the block's text. -/
+theorem loader_block_keeps_ref (b : String × String × String × Nat) (hb : b ∈ c03RefBlocks) (ref : String)
+    (cs : List RChoice) : runTops ref ref (topsOf b.1) cs ref = ref :=
+  refBlock_keeps_ref ref _ cs (ref_blocks_ok b hb)
+
+/-- … and for the nine wrapper kinds without that proviso and from any state -/
+theorem loader_wrapper_keeps_ref (b : String × String × String × Nat) (hb : b ∈ c03RefBlocks)
+    (hne : b.1 ≠ "resolvePathItemRef") (ref regRef cur : String) (cs : List RChoice) :
+    runTops ref regRef (topsOf b.1) cs cur = cur :=
+  runTops_inert ref regRef _ (wrapper_blocks_inert b hb hne) cs cur
+
+/-- the in-progress keys and the deferred hand-over as modelled: the key is the kind's prefix and the node's own
+    text; `unvisitRef(key, value)` is deferred with the block's key and the resolved node (the path item itself, a
+    wrapper's `Value`) -/
+theorem ref_keys_as_modelled :
+    c03RefKeys =
+      [("resolveHeaderRef", "\"Header \" + ref", "key", "component.Value", 5),
+       ("resolveParameterRef", "\"Parameter \" + ref", "key", "component.Value", 5),
+       ("resolveRequestBodyRef", "\"RequestBody \" + ref", "key", "component.Value", 5),
+       ("resolveResponseRef", "\"Response \" + ref", "key", "component.Value", 5),
+       ("resolveSchemaRef", "\"Schema \" + ref", "key", "component.Value", 5),
+       ("resolveSecuritySchemeRef", "\"SecurityScheme \" + ref", "key", "component.Value", 5),
+       ("resolveExampleRef", "\"Example \" + ref", "key", "component.Value", 5),
+       ("resolveCallbackRef", "\"Callback \" + ref", "key", "component.Value", 5),
+       ("resolveLinkRef", "\"Link \" + ref", "key", "component.Value", 5),
+       ("resolvePathItemRef", "\"PathItem \" + ref", "key", "pathItem", 6)] := by decide
+
+/-- the hand-over is set up after the last statement of the block that touches the node's `Ref` -/
+theorem ref_register_after_restore :
+    ∀ k ∈ c03RefKeys, ∀ t ∈ c03RefTops, t.fn = k.1 → (t.restore || t.overwrite || t.litCopy) = true → t.idx < k.2.2.2.2 := by
+  decide
+
+/-- State kept between calls: for every history of resolver calls on one loader — blocks that run with any control
+    flow, nodes queued on keys in progress and overwritten later by the deferred callback with the owner's node, in
+    any order and number — every node keeps the `Ref` text it was written with. No proviso on the registered value. -/
+theorem loader_history_keeps_ref (b : String × String × String × Nat) (hb : b ∈ c03RefBlocks) (regRef : String)
+    (es : List REvent) (q : List (String × String)) (hs : es.all REvent.sync = true) (hq : queuedOK q = true) :
+    queuedOK (runEvents (topsOf b.1) regRef es q).1 = true ∧ queuedOK (runEvents (topsOf b.1) regRef es q).2 = true :=
+  runEvents_keeps_ref _ (ref_blocks_ok b hb) regRef es q hs hq
+
+/-- non-vacuity: a path item queued on the key of a chain member, then the owner's block, which copies a target
+    carrying another text and restores its own -/
+example :
+    runEvents (topsOf "resolvePathItemRef") "" [.queue "#/paths/~1b",
+        .run "#/paths/~1b" [.skip, .skip, .skip, .skip, .write "#/paths/~1c"]] [] =
+      ([("#/paths/~1b", "#/paths/~1b")], [("#/paths/~1b", "#/paths/~1b")]) := by decide
+
+/-- what a store of loader.go may write into: the loader's own state; a wrapper's `Value` inside the reference block of
+    that wrapper; the path item's `Ref` inside its block; locations (`url.URL` values of the function), the unexported
+    `doc.url`, and the caller's fresh copy filled by `resolveComponent` -/
+def docWriteOK (r : C03DocWrite) : Bool :=
+  r.base == "loader" ||
+  (r.lhs == "component.Value" && r.kind == "field" && r.inOwnerBlock) ||
+  (r.lhs == "pathItem.Ref" && r.kind == "field" && r.inOwnerBlock) ||
+  [("loadFromDataWithPathInternal", "doc.url"), ("join", "newPath.Path"), ("resolvePathWithRef", "resolvedPath.Fragment"),
+   ("resolveRefPath", "path.Fragment"), ("resolveComponent", "pathRef.Fragment"),
+   ("resolveComponent", "reflect.ValueOf(resolved).Elem()"), ("resolveRef", "resolvedPathRef.Fragment")].contains (r.fn, r.lhs)
+
+/-- The loader stores nothing else into the document it resolves: every field / element store, `delete` and `Set`
+    call of loader.go is one of the above — so outside the reference blocks (the `ref = ""` branches of `resolveG`) a
+    node is only descended into, and inside them a wrapper gets its `Value` and nothing more (together with
+    `refwrites_all_accounted` for the stores through a pointer). -/
+theorem loader_stores_as_modelled : c03DocWrites.all docWriteOK = true := by decide
+
+/-- non-vacuity: the table does hold the 27 `Value` stores (three per wrapper kind) and the restore -/
+example : (c03DocWrites.filter (fun r => r.lhs == "component.Value" && r.inOwnerBlock)).length = 27 ∧
+    (c03DocWrites.filter (fun r => r.lhs == "pathItem.Ref")).length = 1 := by decide
+
+/-- non-vacuity: the path item's block does replace the node and does restore the text; and the check is not
+    trivially true — the block with the restore folded into one branch (the shape of C03-r3m3) fails it and has a run
+    that ends with the target's text -/
+example :
+    (topsOf "resolvePathItemRef").any (·.overwrite) = true ∧ (topsOf "resolvePathItemRef").any (·.restore) = true ∧
+    (topsOf "resolvePathItemRef").any (·.litCopy) = true ∧
+    okFrom false [⟨true, false, true, false, false⟩, ⟨false, false, false, false, false⟩] = false ∧
+    runTops "#/paths/~1b" "#/paths/~1b" [⟨true, false, true, false, false⟩, ⟨false, false, false, false, false⟩]
+      [.write "#/paths/~1c"] "#/paths/~1b" = "#/paths/~1c" := by decide
 
 /-- the kinds that carry their own `$ref` (no wrapper) and are reached by the loader all have the early return -/
 theorem refEarly_kinds :
